@@ -51,21 +51,29 @@ Variable n0 : N.
 Lemma log_at_core : forall lv s, same_core s (log_at E lv s).
 Proof. intros lv s. unfold log_at. destruct (e_level E <=? lv)%N; [apply same_core_log_emit|apply same_core_refl]. Qed.
 
+Lemma import_ok_core : forall F id s, res_core s (import_ok E F id s).
+Proof.
+  intros F id s. unfold import_ok. apply bind_core; [apply visit_core|]. intros s2 _ _. unfold res_core. cbn [res_state].
+  eapply same_core_trans; [apply (log_at_core 20)|].
+  eapply same_core_trans; [apply same_core_set_user_ns|apply same_core_set_attempted].
+Qed.
+
 Lemma import_one_core : forall F n s, res_core s (import_one E F n s).
 Proof.
-  intros F n s. unfold import_one. apply bind_core; [apply visit_core|]. intros s1 _ _.
+  intros F n s. unfold import_one. apply bind_core; [apply visit_core|]. intros s0 _ _.
+  apply bind_core; [apply visit_core|]. intros s1 _ _.
   destruct (memN (nm_id n) (user_ns s1)); [apply same_core_refl|].
   destruct (has_key (nm_id n) (attempted s1)); [apply same_core_refl|].
-  destruct n as [i|i e|i].
-  - apply bind_core; [apply visit_core|]. intros s2 _ _. unfold res_core. cbn [res_state].
-    eapply same_core_trans; [apply (log_at_core 20)|].
-    eapply same_core_trans; [apply same_core_set_user_ns|apply same_core_set_attempted].
+  destruct n as [i|i e|i|i].
+  - apply import_ok_core.
   - apply bind_core; [apply visit_core|]. intros s2 _ _. unfold res_core.
     destruct (is_Exception e); cbn [res_state].
     + eapply same_core_trans; [apply (log_at_core 20)|].
       eapply same_core_trans; [apply (log_at_core 30)|apply same_core_set_attempted].
     + apply (log_at_core 20).
   - unfold res_core. cbn. apply same_core_set_attempted.
+  - cbn [nm_id]. destruct (memN i (registered s1)); [apply import_ok_core|].
+    unfold res_core. cbn. apply same_core_set_attempted.
 Qed.
 
 Lemma import_all_core : forall F ns ok s, res_core s (import_all E F ns ok s).
@@ -108,6 +116,15 @@ Proof.
   - inversion H; subst. eapply Hm; eauto.
 Qed.
 
+Lemma import_ok_raise : forall F id s s' e,
+  exception_faults F -> import_ok E F id s = Raise s' e -> is_Exception e = true.
+Proof.
+  intros F id s s' e HF H. unfold import_ok in H.
+  eapply (bind_raise _ _ _ _ (fun e => is_Exception e = true)); [| |exact H].
+  - intros s3 e3 X. eapply visit_raise; eauto.
+  - intros s3 ? s4 e4 X. cbn beta in X. discriminate X.
+Qed.
+
 Lemma import_one_raise : forall F n s s' e,
   exception_faults F -> (forall i e0, n = NKnownRaises i e0 -> is_Exception e0 = true) ->
   import_one E F n s = Raise s' e -> is_Exception e = true.
@@ -115,16 +132,18 @@ Proof.
   intros F n s s' e HF Hn H. unfold import_one in H.
   eapply (bind_raise _ _ _ _ (fun e => is_Exception e = true)); [| |exact H].
   - intros s1 e1 X. eapply visit_raise; eauto.
-  - clear H. intros s1 ? s2 e2 H. cbn beta in H.
-    destruct (memN (nm_id n) (user_ns s1)); [discriminate H|].
-    destruct (has_key (nm_id n) (attempted s1)); [discriminate H|].
-    destruct n as [i|i e0|i]; [| |discriminate H].
-    + eapply (bind_raise _ _ _ _ (fun e => is_Exception e = true)); [| |exact H].
-      * intros s3 e3 X. eapply visit_raise; eauto.
-      * intros s3 ? s4 e4 X. cbn beta in X. discriminate X.
-    + eapply (bind_raise _ _ _ _ (fun e => is_Exception e = true)); [| |exact H].
-      * intros s3 e3 X. eapply visit_raise; eauto.
-      * intros s3 ? s4 e4 X. cbn beta in X. rewrite (Hn i e0 eq_refl) in X. discriminate X.
+  - clear H. intros s0 ? s0' e0' H0. cbn beta in H0.
+    eapply (bind_raise _ _ _ _ (fun e => is_Exception e = true)); [| |exact H0].
+    + intros s1 e1 X. eapply visit_raise; eauto.
+    + clear H0. intros s1 ? s2 e2 H. cbn beta in H.
+      destruct (memN (nm_id n) (user_ns s1)); [discriminate H|].
+      destruct (has_key (nm_id n) (attempted s1)); [discriminate H|].
+      destruct n as [i|i e0|i|i]; [| |discriminate H|].
+      * eapply import_ok_raise; eauto.
+      * eapply (bind_raise _ _ _ _ (fun e => is_Exception e = true)); [| |exact H].
+        -- intros s3 e3 X. eapply visit_raise; eauto.
+        -- intros s3 ? s4 e4 X. cbn beta in X. rewrite (Hn i e0 eq_refl) in X. discriminate X.
+      * cbn [nm_id] in H. destruct (memN i (registered s1)); [eapply import_ok_raise; eauto|discriminate H].
 Qed.
 
 Lemma import_all_raise : forall F ns ok s s' e,
@@ -312,7 +331,10 @@ Proof.
         * intros s5 ? s6 e6 Z. cbn beta in Z.
           eapply (bind_raise _ _ _ _ (fun e => is_Exception e = true)); [| |exact Z].
           -- intros s7 e7 W. eapply visit_raise; eauto.
-          -- intros s7 ? s8 e8 W. cbn beta in W. destruct attr; [|discriminate W].
+          -- intros s7 ? s8 e8 W. cbn beta in W. destruct attr.
+             2:{ eapply (bind_raise _ _ _ _ (fun e => is_Exception e = true)); [| |exact W].
+                 - intros sa ea Q. eapply visit_raise; eauto.
+                 - intros sa ? sb eb Q. cbn beta in Q. discriminate Q. }
              destruct (bind (visit F SParse s7) (fun s9 _ => auto_import_body E F names (set_attempted [] s9))) as [s9 u|s9 e9] eqn:V;
                [discriminate W|].
              assert (He9 : is_Exception e9 = true).
